@@ -46,7 +46,7 @@ CLAIMED = {
             "The C07 search extended with Undo transitions (Proof.Undo with the undone block's own data, newest first, two undos per path, arbitrary further blocks after "
             "them): after every undo and every later update the held set must be exactly the held leaves that existed before the block (block-deleted leaves may or may not "
             "return), never a leaf the undone block added or an invented one, with reference positions, canonical hashes, accepted by Verify against the pre-block stump and "
-            "equal to the full prover's proof. One genuine defect is recorded as known finding KF-1 (attributed by signature + exact case set).", "6 C08"),
+            "equal to the full prover's proof. Also run from bare roots of accumulators with up to 2^63-4 leaves and on three-block histories over 11-17 leaves. The defect this check found (former known finding KF-1) has been repaired.", "6 C08"),
     "C11": ("light", "explicit-state BFS over stump histories; UpdateData vs derived reference oracles per transition",
             "For every transition of the stump history search (every deletion subset x addition count, N<=Nmax) the UpdateData returned by Stump.Update is compared field by field "
             "with oracles derived from the reference forest: PrevNumLeaves; ToDestroy = empty roots consumed by the binary carry, in order, post-block coordinates; NewDelPos/Hash = every "
